@@ -210,11 +210,11 @@ class Script:
                 buf[op["bit"] // 8] ^= 1 << (op["bit"] % 8)
                 self._add(f"F {op['arena']} {op['bit']}", op_no)
         elif k == "observe" and op["arena"] in getattr(self, "untracked", set()):
-            self._add(f"O {op['struct']} {self._params(op['params'])} {op['arena']} {op['off']} {op['len']}", op_no)
+            self._add(f"O {op['struct']} {self._params(op['params'])} {op['arena']} {op['off']} {op['len']}{' A' if op.get('aligned') else ''}", op_no)
         elif k == "observe":
             pairs = M.observe_both(lambda fold: self.env(op["struct"], op["params"], op["arena"], op["off"], op["len"], fold))
-            n = self._add(f"O {op['struct']} {self._params(op['params'])} {op['arena']} {op['off']} {op['len']}", op_no)
-            self.expect[n] = {"kind": "observe", "pairs": pairs, "op_no": op_no, "stream": op.get("stream"),
+            n = self._add(f"O {op['struct']} {self._params(op['params'])} {op['arena']} {op['off']} {op['len']}{' A' if op.get('aligned') else ''}", op_no)
+            self.expect[n] = {"kind": "observe", "pairs": pairs, "op_no": op_no, "stream": op.get("stream"), "aligned": bool(op.get("aligned")),
                               "final_valid": op.get("final_valid")}
         elif k == "null":
             n = self._add(f"N {op['struct']}", op_no)
@@ -228,7 +228,7 @@ class Script:
             if cw is None:
                 # the documents do not decide this write: the model no longer knows the arena's bytes
                 self.untracked = getattr(self, "untracked", set()) | {op["arena"]}
-            n = self._add(f"W {op['struct']} {self._params(op['params'])} {op['arena']} {op['off']} {op['len']} {op['path']} {op['value']}", op_no)
+            n = self._add(f"W {op['struct']} {self._params(op['params'])} {op['arena']} {op['off']} {op['len']} {op['path']} {op['value']}{' A' if op.get('aligned') else ''}", op_no)
             self.expect[n] = {"kind": "write", "could": cw, "tried": tw, "bytes": bytes(self.arenas[op["arena"]]).hex(),
                               "op_no": op_no, "path": op["path"], "value": op["value"], "facts": facts}
         elif k in ("copy", "equals"):
@@ -390,10 +390,12 @@ def scenario_stream(rng, module, cfg):
     if msg is None:
         kind = "garbage"
         msg, valid = bytes(rng.getrandbits(8) for _ in range(rng.randint(0, 40))), False
-    base = rng.choice([0, 0, 1, 2, 3, 4, 7])
+    base = rng.choice([0, 0, 1, 2, 3, 4, 7, 8])
     ops.append({"op": "alloc", "arena": "rx", "hex": "", "base": base})
     stream = {"kind": kind}
     ob = {"op": "observe", "struct": st, "params": params, "arena": "rx", "off": 0}
+    if cfg.get("aligned") and base % cfg["aligned"] == 0 and rng.random() < 0.7:
+        ob["aligned"] = True  # the view is told, truthfully, that its buffer is aligned
     ops.append(dict(ob, len=0, stream=dict(stream, pos=0)))
     total = len(msg)
     cut = total
